@@ -143,7 +143,7 @@ def run_and_compare(driver, sc, pdesc, workdir, want, model=None, max_steps=4000
     if r.status != 'DONE':
         diffs.append({'what': 'completion', 'status': r.status, 'blocked': r.deadlock, 'steps': r.steps})
         return diffs, r, model
-    raw = SC.compare(sc, r, model, want_streams=False, want_ops='ops' in want, want_log='log' in want)
+    raw = SC.compare(sc, r, model, want_streams=False, want_ops='ops' in want, want_log='log' in want, driver=driver)
     for d in raw:
         w = d['what']
         if w in ('exception', 'unfinished-threads', 'client-did-not-see-end-of-session', 'log-not-parseable'):
